@@ -272,6 +272,13 @@ Definition occurrence_to_interval (r : rule) (d : Z) : option ivl :=
 (* what __init__ guarantees about the fields the fetch code relies on *)
 Definition rule_accepted (r : rule) : Prop := 0 <= r_sod r < DAY.
 
+(* what is assumed of a zone table (checked on every exported table by the harness, part "zones"):
+   any two of its UTC offsets differ by at most half a day — true of all of tzdata except the
+   date-line jumps (Pacific/Apia 2011, Kwajalein 1993, ...) *)
+Definition zone_offsets (z : zone) : list Z := off0 z :: map snd (trans z).
+Definition zone_spread_ok (z : zone) : bool :=
+  forallb (fun o => forallb (fun o' => 2 * (o - o') <=? DAY) (zone_offsets z)) (zone_offsets z).
+
 (* results of a fetch *)
 Inductive fres := Ok (l : list ivl) | Raised | OutOfFuel.
 
